@@ -290,7 +290,24 @@ func (w *Worker) floatVar(name string) *Term {
 }
 
 // internStr maps a concrete string to a distinct Int constant.
-func (w *Worker) internStr(str string) *Term {
+func (s *State) internStr(str string) *Term {
+	w := s.W
+	if id, ok := w.Job.strIDs[str]; ok {
+		t := w.Pool.IntConst(id)
+		for name, re := range w.Job.regexUFs {
+			s.regexAxioms(name, re)
+		}
+		return t
+	}
+	defer func() {
+		for name, re := range w.Job.regexUFs {
+			s.regexAxioms(name, re)
+		}
+	}()
+	return w.internStrRaw(str)
+}
+
+func (w *Worker) internStrRaw(str string) *Term {
 	if id, ok := w.Job.strIDs[str]; ok {
 		return w.Pool.IntConst(id)
 	}
